@@ -600,6 +600,46 @@ def build_series(m0, steps):
     return out
 
 
+def special_series(m0=None):
+    """hand-picked series with several deviations at once (beyond the deviation bound of the quick tiers): names whose
+    existence changes during the push, files deleted and re-created (with non-default modes), renames there and back,
+    failures in fresh or emptied directories, failures on two files"""
+    m0 = m0 or initial()
+    S = [
+        [[(t_delete, 'f', False)], [(t_create, 'f', False)]],
+        [[(t_delete, 'd/h', False)], [(t_create, 'd/h', False)], [(t_mod, 'd/h', 1, 0, 0)]],
+        [[(t_delete, 'e/i', False)], [(t_create, 'e/i', True)]],
+        [[(t_delete, 'd/h', True)], [(t_fill, 'd/h')]],
+        [[(t_rename, 'd/h', 'n', True)], [(t_create, 'd/h', False)]],
+        [[(t_rename, 'e/i', 'n', False)], [(t_rename, 'n', 'e/i', True)]],
+        [[(t_rename, 'f', 'n', True)], [(t_rename, 'n', 'f', False)], [(t_mod, 'f', 1, 0, 0)]],
+        [[(t_create, 'n', False)], [(t_delete, 'n', False)]],
+        [[(t_create, 'n', False)], [(t_create_over, 'n')], [(t_mod, 'f')]],
+        [[(t_create, 'n', True)], [(t_prepend, 'n')], [(t_mod, 'n', 1, 0, 0)]],
+        [[(t_mode, 'e/i', False)], [(t_delete, 'e/i', False)], [(t_create, 'e/i', False)]],
+        [[(t_mode, 'f', True)], [(t_delete, 'f', False)], [(t_create, 'f', True)]],
+        [[(t_delete, 'f', False)], [(t_viaold, 'f', 'd/h')], [(t_mod, 'e/i')]],
+        [[(t_rename, 'f', 'n', False)], [(t_viaold, 'f', 'e/i')], [(t_mod, 'n')]],
+        [[(t_mod, 'f')], [(t_rename, 'f', 'n', True)], [(t_mod, 'n', 1, 0, 4)]],
+        [[(t_delete, 'd/g', False), (t_delete, 'd/h', False)], [(t_create, 'd/n', False)]],
+        [[(t_delete, 'd/g', False)], [(t_delete, 'd/h', False)], [(t_missing, 'd/n')]],
+        [[(t_create, 'x/y/n', False)], [(t_create_over, 'x/y/n')], [(t_mod, 'f')]],
+        [[(t_create, 'x/y/n', False), (t_create, 'x/y/m', False)], [(t_create_over, 'x/y/n'), (t_mod, 'd/g')]],
+        [[(t_mod, 'f')], [(t_modfail, 'd/g')], [(t_modfail, 'f')]],
+        [[(t_modfail, 'f')], [(t_modfail, 'd/g')]],
+        [[(t_mod, 'f'), (t_mod, 'd/g')], [(t_modfail, 'd/g'), (t_partial, 'f')], [(t_mod, 'd/h')]],
+        [[(t_mod, 'd/g')], [(t_mod, 'f')], [(t_modfail, 'f'), (t_mod, 'e/i')], [(t_modfail, 'd/g')]],
+        [[(t_delete, 'f', False), (t_create, 'n', False)], [(t_modfail, 'd/g'), (t_rename, 'd/h', 'd/n', True)]],
+        [[(t_rename, 'f', 'n', True)], [(t_rename_fail, 'n', 'x/y/n'), (t_mod, 'd/g')]],
+    ]
+    out = []
+    for steps in S:
+        s = build_series(m0, steps)
+        if s:
+            out.append(s)
+    return out
+
+
 def series_dev(series):
     return sum(fp.dev for p in series for fp in p.fps) + sum((1 if p.reverse else 0) + (1 if p.strip != 1 else 0) + (1 if p.empty else 0) for p in series)
 
